@@ -15,24 +15,30 @@ from mc import sched, world
 from mc.report import CheckBroken, add_sample, add_violation, count, new_part
 
 LEVEL = "model_checking"
-RULE = ("for each scenario (2-3 real threads, <= 4 sends/receives each) every thread schedule with <= B preemptions "
-        "(B = 2 quick, 3 thorough; scheduling point = every line event in socket_hub.py, thread_socket/socket.py, "
-        "broadcast_channel.py + blocking lock acquire + hub sleep + one failed polling round; switching at a blocking "
-        "point is free) is executed once on the real code; evaluations = complete executions, each with a different "
-        "schedule (distinct deviation list from the default policy), all non-trivial (>= 2 threads communicate); "
-        "states = distinct (per-thread (file,line,status), hub sets + queue contents) configurations seen at scheduling "
-        "points, unioned per scenario; transitions = scheduling steps executed")
+RULE = ("for each of 12 scenarios (2-3 real threads, <= 4 sends/receives each) every thread schedule with <= B preemptions "
+        "(B = 2 quick, 3 thorough) is executed once on the real code; scheduling point = every line event in socket_hub.py, "
+        "thread_socket/socket.py, broadcast_channel.py + blocking lock acquire + hub sleep + one failed polling round; a "
+        "switch at a blocking point is free; preemptions are only placed directly before a line that touches shared hub "
+        "state (placements before thread-local lines commute and are pruned; audited against the unreduced exploration at "
+        "B-1 preemptions, B-1 = 2 for five small scenarios in thorough); in the two three-thread scenarios choosing a "
+        "non-round-robin successor at a blocking point also costs one unit of B; evaluations = complete executions of the "
+        "reduced exploration, each a different schedule, all non-trivial (>= 2 threads exchange messages); states = "
+        "distinct (per-thread (file, line, status), hub sets + queue contents) configurations at scheduling points, "
+        "unioned per scenario; transitions = scheduling steps executed")
 ASSUMPTIONS = [
     "interleaving at Python statement (line event) granularity under the GIL; bytecode-level interleavings inside one "
     "statement and free-threaded builds are out of scope",
-    "preemption bound: schedules needing more than B preemptions are not explored (reported per scenario in the evidence: "
-    "alternatives_beyond_bound)",
-    "hub sleep and the sleep-less polling loops are modelled as fair yields (a sleeper/poller runs again only after another "
-    "thread took a step); timeouts are not used (timer frozen at 0), so timing behaviour is out of scope",
+    "preemption bound: schedules needing more than B preemptions are not explored (per scenario in the evidence: "
+    "alternatives_beyond_bound); three-thread scenarios are deviation-bounded (non-default free switches are charged)",
+    "hub sleep and the sleep-less polling loops are modelled as fair yields (a sleeper/poller runs again after another "
+    "thread took a step, or when nobody else can run); timeouts are not used (timer frozen at 0): timing is out of scope",
+    "shared state = the five hub containers, the hub lock, callback invocations and the callback storage list (access-"
+    "counted); the reduction is only as good as this list, which is why it is audited against the unreduced exploration",
     "lenient reading for callback endpoints: received sequence = callback log followed by a final non-blocking drain, so a "
     "message parked in the queue of a callback endpoint counts against order only, never as loss",
     "a non-blocking receive that reports 'empty' although a completed send is still undelivered is reported as a violation "
     "of the documented recv(block=False) contract (fingerprint nonblocking/spurious-empty)",
+    "sockets are closed the only way the API offers: dropping the last reference (finaliser -> hub.disconnect)",
 ]
 
 HORIZON = 4000
@@ -194,6 +200,9 @@ def _drain(s):
     for _ in range(16):
         try:
             got.append(s.recv(block=False))
+        except sched.UnscheduledSleep:
+            got.append("<non-blocking receive went to sleep>")
+            break
         except RuntimeError:
             break
     return got
@@ -235,8 +244,9 @@ def judge(scen: str, res: sched.Result, devs, part) -> List[Tuple[str, str, Any]
     meta = channels(scen)
     if res.outcome in ("deadlock", "livelock"):
         ops = "+".join(sorted(str(d[4]) for d in res.detail))
-        bad.append((f"{res.outcome}/{ops}", f"{res.outcome}: unfinished threads can never proceed "
-                    f"(stuck in: {ops}); a blocked receive here means a message never arrives", {"stuck": res.detail}))
+        bad.append((f"{res.outcome}/{ops}", f"{res.outcome}: the unfinished threads can never proceed (stuck in: {ops}; "
+                    "a receive stuck for ever = a message that never arrives, a constructor stuck for ever = endpoints that "
+                    "never find each other)", {"stuck": res.detail}))
         return bad
     if res.outcome == "horizon":
         part["caps"].append(f"{scen}: step horizon {HORIZON} hit")
@@ -252,7 +262,8 @@ def judge(scen: str, res: sched.Result, devs, part) -> List[Tuple[str, str, Any]
             if e[0] == "raised":
                 bad.append((f"unexpected-exception/{e[1]}", f"thread {tn}: {e[1]}: {e[2]}", {"thread": tn, "log": log}))
             elif e[0] == "send-refused":
-                bad.append(("send-refused", f"thread {tn}: send on a socket whose both endpoints are open raised ConnectionError",
+                bad.append(("send-refused", f"thread {tn}: send raised ConnectionError although the constructor of this endpoint had "
+                            "returned and the remote endpoint never closed (constructors did not rendezvous / connected is wrong)",
                             {"thread": tn, "log": log}))
             elif e[0] == "send":
                 m = meta[e[1]]
@@ -303,6 +314,9 @@ def judge(scen: str, res: sched.Result, devs, part) -> List[Tuple[str, str, Any]
             got[ch] = list(f["callback"]) + got[ch]
             if f["callback"]:
                 count(part, f"{scen}/delivery/callback")
+        if f["drained"] and f["drained"][-1] == "<non-blocking receive went to sleep>":
+            bad.append(("nonblocking/blocked", "recv(block=False) went to sleep (final drain)", {"socket": name}))
+            f = dict(f, drained=f["drained"][:-1])
         if f["drained"]:
             count(part, f"{scen}/delivery/queued-at-end")
             got.setdefault(ch, []).extend(f["drained"])
